@@ -47,6 +47,7 @@ def _case(draw):
 
 
 def strategy(tier):
+    S.NONUNITARY_FOCK[0] = True   # the statement covers non-unitary user operators through non-renormalising types
     return _case()
 
 
@@ -139,7 +140,11 @@ def run_case(case):
             if len(a[4]) != len(b[4]):
                 raise Violation("twin-draws", f"step {i}: {len(a[4])} random draws with contraction on, {len(b[4])} with {mode}", site)
             for pa, pb in zip(a[4], b[4]):
-                if pa.shape != pb.shape or np.max(np.abs(pa - pb)) > (3e-5 if near else 1e-7):
+                if trunc and pa.shape != pb.shape:
+                    # twins may have chosen different Fock cut-offs: compare on the common (zero-padded) range
+                    n_ = max(len(pa), len(pb))
+                    pa, pb = np.pad(pa, (0, n_ - len(pa))), np.pad(pb, (0, n_ - len(pb)))
+                if pa.shape != pb.shape or np.max(np.abs(pa - pb)) > (1e-2 if trunc else (3e-5 if near else 1e-7)):
                     raise Violation("twin-probabilities", f"step {i}: measurement distribution {np.round(pa, 6).tolist()} (contraction on) vs {np.round(pb, 6).tolist()} ({mode})", site)
             compared += 1
     for mode, stt in statuses.items():
